@@ -187,6 +187,10 @@ class JsonConverter(Generic[T, T_NP], ABC):
     def supports_none(self) -> bool:
         return False
 
+    def numpy_is_none(self, value: Any) -> bool:
+        """Whether the element of a NumPy array stands for None"""
+        return value is None
+
 
 class BoolConverter(JsonConverter[bool, np.bool_]):
     def __init__(self) -> None:
@@ -748,7 +752,8 @@ class OptionalConverter(Generic[T, T_NP], JsonConverter[Optional[T], np.void]):
     def __init__(self, element_converter: JsonConverter[T, T_NP]) -> None:
         super().__init__(
             np.dtype(
-                [("has_value", np.bool_), ("value", element_converter.overall_dtype())]
+                [("has_value", np.bool_), ("value", element_converter.overall_dtype())],
+                align=True,
             )
         )
         self._element_converter = element_converter
@@ -776,6 +781,9 @@ class OptionalConverter(Generic[T, T_NP], JsonConverter[Optional[T], np.void]):
 
     def supports_none(self) -> bool:
         return True
+
+    def numpy_is_none(self, value: Any) -> bool:
+        return not value["has_value"]
 
 
 class UnionConverter(JsonConverter[T, np.object_]):
